@@ -838,6 +838,12 @@ func (bc *BlockChain) WriteBlockWithState(block *types.Block, state *state.State
 	}
 
 	rawdb.WriteTxLookupEntries(batch, block)
+	// the lookup entries become durable together with the markers that make the block canonical
+	// (insert below repeats the marker writes and updates the in-memory head): written on their own,
+	// a kill before insert left lookups pointing into a block that is not in the canonical chain.
+	rawdb.WriteCanonicalHash(batch, block.Hash(), block.NumberU64())
+	rawdb.WriteHeadBlockHash(batch, block.Hash())
+	rawdb.WriteHeadHeaderHash(batch, block.Hash())
 	if err := batch.Write(); err != nil {
 		return err
 	}
